@@ -41,6 +41,23 @@ def sel_validate(v1: int, b: bool, s: str) -> bool:
     return ok == (s in paths)
 
 
+def sel_validate2(v1: int, b: bool, s: str, t: str) -> bool:
+    """
+    pre: len(s) <= 4 and len(t) <= 4
+    post: _
+    """
+    # a list of selectors is accepted exactly when EVERY member addresses something (names that are prefixes of one another on purpose)
+    obj = {"aaa": v1, "aa": b, "lst": [b]}
+    paths = {"aaa", "aa", "lst"}
+    try:
+        mu.validate(obj, [s, t])
+        ok = True
+    except InvalidSelectorError:
+        ok = False
+    V.reached()
+    return ok == ((s in paths) and (t in paths))
+
+
 def sel_sorted(b: bool, v: int, s: str) -> bool:
     """
     pre: len(s) <= 8
@@ -178,6 +195,44 @@ def run_object_case(oi, si):
                 if got != want:
                     return False
     return True
+
+
+# ---- lists of selectors on real objects: a near miss (a valid path with its tail cut off) next to valid selectors, in every position
+def sel_lists(oi: int, si: int, cut: int, pos: int) -> bool:
+    """
+    pre: 0 <= oi < 3 and 0 <= si < NMAX and 1 <= cut <= 3 and 0 <= pos <= 2
+    post: _
+    """
+    oi = pick(oi, 3)
+    if si >= len(PATHS[oi]):
+        return True
+    si, cut, pos = pick(si, len(PATHS[oi])), pick(cut, 4), pick(pos, 3)
+    with Native():
+        ok = run_list_case(oi, si, cut, pos)
+    V.reached()
+    return ok
+
+
+def run_list_case(oi, si, cut, pos):
+    obj, good = OBJS[oi], PATHS[oi][si]
+    bad = good[:-cut]
+    if bad in PATHS[oi]:
+        return True                    # cutting the tail gave another existing path: not a near miss
+    other = PATHS[oi][0]
+    sels = [[bad, good, other], [good, bad, other], [good, other, bad]][pos]
+    ver = "2.0" if oi == 2 else "2.1"
+    outcomes = []
+    for fn in (lambda: mu.validate(obj, sels), lambda: markings.get_markings(obj, sels), lambda: markings.is_marked(obj, M1, sels),
+               lambda: markings.add_markings(obj, M1, sels) if oi != 1 else mu.validate(obj, sels),
+               lambda: stix2.parse(dict(JS[oi], granular_markings=[{"marking_ref": M1, "selectors": sels}]), version=ver),
+               lambda: stix2.parse(dict(JS[oi], granular_markings=[{"marking_ref": M1, "selectors": [good]}, {"marking_ref": M1, "selectors": [other, bad]}]), version=ver),
+               lambda: markings.add_markings(dict(JS[oi]), M1, sels)):
+        try:
+            fn()
+            outcomes.append(True)
+        except (InvalidSelectorError, STIXError, ValueError):
+            outcomes.append(False)
+    return not any(outcomes)
 
 
 # ---- thorough: every class of both versions, every path of an enriched instance plus systematic near misses
